@@ -341,6 +341,29 @@ func (v *View) checkC05(res *Result) {
 		if e.Kind != "quiescent" || e.Snap == nil || !e.Snap.APILeader || !e.Snap.IsLeader {
 			continue
 		}
+		// (an outside party that deleted / expired / rewrote the record during the last TTL may have
+		// let a leftover acquisition round of the same instance re-create it under that round's
+		// token: tampering, judged by C13/C04, not part of this property's premise)
+		tampered := false
+		if is := v.instSpec(e.Inst); is != nil {
+			for k := len(v.Muts) - 1; k >= 0; k-- {
+				m := v.Muts[k]
+				if m.Seq > idx {
+					continue
+				}
+				if m.VT < e.VT-v.Spec.TTL {
+					break
+				}
+				if m.Key == is.Group && m.By == "outside" {
+					tampered = true
+					break
+				}
+			}
+		}
+		if tampered {
+			res.Obs["c05.leader_snapshots_after_tampering"]++
+			continue
+		}
 		res.Obs["c05.leader_snapshots"]++
 		if e.Snap.APIToken != own[e.Inst] || e.Snap.Token != own[e.Inst] {
 			res.viol("C05", "token-api", "token-api-mismatch", fmt.Sprintf("%s Token()=%s Status().Token=%s latest own record token=%s", e.Inst, e.Snap.APIToken, e.Snap.Token, own[e.Inst]), idx)
